@@ -79,7 +79,14 @@ type Case struct {
 func (c Case) Abstract() string {
 	s := fmt.Sprintf("%+v|", c.Cfg)
 	for _, o := range c.Ops {
-		s += o.K + ":" + o.M + ";"
+		s += o.K + ":" + o.M
+		for _, x := range o.X {
+			s += "@" + x.M
+			for _, y := range x.X {
+				s += "/" + y.K
+			}
+		}
+		s += ";"
 	}
 	return s
 }
